@@ -117,6 +117,11 @@ func (g *Gen) taint(r *R, acc []Token, inMulti bool) []Token {
 		g.nextTok++
 		t := fmt.Sprintf("T%dq", g.nextTok)
 		acc = append(acc, Token{t, class, r.Op, pos, inMulti})
+		if g.longUnsafe && class == 'U' && !strings.Contains(s, "%") && g.rng.Intn(3) == 0 {
+			// a long unsafe text (several KiB of the token): whatever cuts, caps or windows a
+			// rendering is likely to cut inside it
+			s = s + strings.Repeat(" "+t, 400+g.rng.Intn(500))
+		}
 		switch g.rng.Intn(3) {
 		case 0:
 			return t + s
